@@ -221,3 +221,21 @@ pub(crate) enum Mark {
     InList = IN_LIST,
     InQueue = IN_QUEUE,
 }
+
+#[cfg(feature = "verif-hooks")]
+impl CounterMarker {
+    /// (Verification hook) Returns the raw `(tracing_counter, counter)` words.
+    #[inline]
+    pub(crate) fn verif_raw(&self) -> (u16, u16) {
+        (self.tracing_counter.get(), self.counter.get())
+    }
+
+    /// (Verification hook) Builds a `CounterMarker` from raw words.
+    #[inline]
+    pub(crate) fn verif_from_raw(tracing_counter: u16, counter: u16) -> CounterMarker {
+        CounterMarker {
+            tracing_counter: Cell::new(tracing_counter),
+            counter: Cell::new(counter),
+        }
+    }
+}
